@@ -21,6 +21,8 @@ const pkgStrategies = "pkg/scheduler/plugins/proportion/reclaimable/strategies"
 
 func runC07(c *Ctx) {
 	runC07Kinds(c)
+	borrow(c, "O8", "C08", "O13", "usage is accumulated for the allocated statuses", "the queue shares that reclaim reasons about start from the pods that HOLD resources: counting terminating pods makes a queue at its deserved quota look over quota and lets reclaim take more from it")
+	borrow(c, "O9", "C12", "O2", "AllocatedStatus(Binding)", "a pod whose bind is in flight holds its resources: if Binding is not an allocated status the reclaimer's queue looks smaller than it is at session open and reclaims past its fair share")
 	p, fx := c.P, c.Fx
 	// ---- O1
 	recl := c.Anchor("O1", pkgReclaimable, "Reclaimable", "Reclaimable")
